@@ -6,28 +6,42 @@ import random
 from ..engine import monitors, reuse, suite
 from ..runner import Env, Outcome
 
-THEOREMS = ["C04_init_live", "C04_terminal_last", "C04_outcome_once", "C04_consumer_terminates",
-            "C04_refuted_witness", "C04_refuted"]
+THEOREMS = ["C04_init_live", "C04_terminal_last", "C04_crash_unreachable", "C04_terminal_last_unconditional",
+            "C04_outcome_once", "C04_consumer_terminates_of_endedWell", "C04_consumer_terminates", "C04_statement_holds",
+            "C04_refuted_witness_unrepaired", "C04_refuted_unrepaired", "C04_unrepaired_differs_only_on_raise"]
 LEAN_TARGETS = ["WfProps.C04"]
 EXPLANATION = (
-    "Runner LTS: for every schedule/worker results/external ticks (whose user content publishes no StopEvent behind "
-    "the engine's back) a run is live with no terminal event, or ended with the terminal event of the outcome's kind "
-    "as the last and only terminal element of the stream, or crashed (exception escaping the reducer); after the end "
-    "nothing changes. The unconditional statement is REFUTED (policy raising inside the reducer => no terminal event; "
-    "replayed on the real engine, known finding). Tie: runner correspondence tick by tick (commands in order, stream "
-    "length, outcome). Search: outcome vs terminal event, uniqueness, nothing after it, consumer termination."
+    "Runner LTS: for every configuration, retry-policy oracle (also one that raises), initial state satisfying the "
+    "worker-slot invariant, start event, timeout and schedule/worker results/external ticks (whose user content publishes "
+    "no StopEvent behind the engine's back) a run is live with no terminal event, or ended with the terminal event of the "
+    "outcome's kind as the last and only terminal element of the stream (C04_terminal_last_unconditional); there is no "
+    "third case: an exception escaping the reducer is unreachable from the start of a run (C04_crash_unreachable: the "
+    "three remaining sources - no free worker id, step result for an unknown step, step result for a worker not in "
+    "progress - are excluded by the worker-slot invariant and by running <= in-progress); after the end nothing changes; "
+    "a consumer that stops at the first terminal element stops exactly when the run has ended (C04_consumer_terminates). "
+    "Of the reducer BEFORE the repair of C04/engine_side_failure_no_terminal_event (a retry policy raising inside the "
+    "reducer => no terminal event) the statement is refuted (C04_refuted_unrepaired, reducer variant kept in Lean); the "
+    "raising-policy witness and raising policies in the generated stream run on the real engine on every run as "
+    "regression tests. Tie: runner correspondence tick by tick (commands in order, stream length, outcome). Search: "
+    "outcome vs terminal event, uniqueness, nothing after it, consumer termination."
 )
 ASSUMPTIONS = suite.ENGINE_ASSUMPTIONS + [
     "steps returning non-events are turned into step failures by the step wrapper (exercised by the monitors, 'ret bad' scripts)",
     "TickIdleRelease (server-internal release) is outside the four outcomes of the property",
     "ctx.write_event_to_stream(StopEvent) by user code is outside the property",
+    "the retry policy is an oracle answering a delay, None or an exception; a policy object that breaks the protocol in another way "
+    "(no introspectable `next`: inspect.signature raising; a non-numeric delay) and exceptions raised by the runtime adapter inside the "
+    "control loop (get_now, write_to_event_stream, wait_for_next_task - store faults are C15's subject) are outside the model: those "
+    "still end a run without a terminal event",
 ]
 
 
 def _raising(spec: dict, rng) -> dict:
-    if rng.random() < 0.03:
+    """a tenth of the specs: retry policies whose next() raises (regression test of the repaired finding
+    C04/engine_side_failure_no_terminal_event: the run must still end with one matching terminal event)"""
+    if rng.random() < 0.10:
         for s in spec["steps"]:
-            if s.get("retry") and rng.random() < 0.5:
+            if s.get("retry") and rng.random() < 0.6:
                 s["retry"] = {"kind": "raises"}
     return spec
 
@@ -70,7 +84,7 @@ def _reuse_runs(env: Env, out: Outcome, n: int) -> None:
 def run(env: Env) -> Outcome:
     out = Outcome()
     out.rule = ("direct (state,tick) pairs + live scripted workflows (steps that raise, return non-events, race with StopEvent, "
-                "cancel/timeout externals, a few raising policies); run histories reusing one run_id on one runtime; non-trivial = more than 2 ticks; distinct by (spec, schedule)")
+                "cancel/timeout externals, raising retry policies in a tenth of the specs); run histories reusing one run_id on one runtime; non-trivial = more than 2 ticks; distinct by (spec, schedule)")
     suite.direct_corr(env, out, env.budget(3000, 60000))
     suite.live_runs(env, out, env.budget(400, 8000), [monitors.mon_c04], extra_specs=suite.load_corpus("C04"),
                     mutate_spec=_raising)
